@@ -47,15 +47,16 @@ CHECKS = {
                # delete, re-add on the freed halffaces, collect: the collection must not disturb the new cell
                mc(3, [1, 5, 2], ['delete_cell', 'delete_face', 'add_cell_closed', 'add_face_v'], GC + ['enable_deferred', 'delete_cell'],
                   Modes='ModesDeferred', BUSets='BUTwo')],
-        thorough=[mc(3, MAINSEEDS, DEL + GC, DEL + GC + BUT + ['add_edge', 'add_face_v', 'add_cell_closed']),
-                  mc(4, [1, 5, 2], ['delete_cell', 'delete_face', 'add_cell_closed'], GC + ['enable_deferred', 'delete_cell'], Modes='ModesDeferred'),
-                  mc(2, MAINSEEDS, DEL, SWAP + SETS)],
+        thorough=[mc(3, [2, 5, 6], DEL + GC, DEL + GC + BUT + ['add_edge', 'add_face_v', 'add_cell_closed']),
+                  mc(2, SMALL + EXTRA, DEL, SWAP + SETS, Modes='ModesTwo'),
+                  mc(4, [1, 5], ['delete_cell', 'delete_face', 'add_cell_closed'], GC + ['enable_deferred', 'delete_cell'], Modes='ModesDeferred')],
         sim=dict(ops=DEL + GC + ADDS + BUT + SWAP + MODE + SETS),
     ),
     'C02': dict(
         props=['C02'], opts='props=1',
         quick=[mc(2, MAINSEEDS, DEL + GC + MODE, DEL)],
-        thorough=[mc(3, MAINSEEDS, DEL + GC + ['add_cell_closed', 'add_face_v'], DEL)],
+        thorough=[mc(3, SMALL, DEL + GC + MODE, DEL),
+                  mc(3, [3, 9, 10], DEL + ['add_cell_closed'], DEL, Modes='ModesTwo', BUSets='BUTwo')],
         sim=dict(ops=DEL + GC + ADDS + BUT + MODE + ['clear']),
     ),
     'C03': dict(
@@ -63,8 +64,8 @@ CHECKS = {
         quick=[mc(2, SMALL, DEL, DEL + GC + ['add_vertex', 'add_edge', 'add_face_v', 'clear', 'enable_deferred'], BUSets='BUTwo'),
                mc(1, MAINSEEDS + EXTRA, [], SWAP + DEL, Modes='ModesDefault', BUSets='BUTwo'),
                mc(2, [5, 6], DEL, SWAP, Modes='ModesDeferred', BUSets='BUTwo')],
-        thorough=[mc(3, MAINSEEDS, DEL + GC, DEL + GC + ['add_vertex', 'add_edge', 'add_face_v', 'clear', 'enable_deferred'], BUSets='BUTwo'),
-                  mc(2, MAINSEEDS, DEL, SWAP, BUSets='BUTwo')],
+        thorough=[mc(3, [2, 5, 6], DEL + GC, DEL + GC + ['add_vertex', 'add_edge', 'add_face_v', 'clear', 'enable_deferred'], BUSets='BUTwo'),
+                  mc(2, SMALL + EXTRA, DEL, SWAP, BUSets='BUTwo')],
         sim=dict(ops=DEL + GC + ADDS + SWAP + MODE + ['clear', 'more_props']),
     ),
     'C04': dict(
@@ -73,24 +74,25 @@ CHECKS = {
                mc(3, [1, 5, 2], ['delete_cell', 'add_cell_closed'], GC + ['enable_deferred'], Modes='ModesDeferred', BUSets='BUTwo'),
                mc(2, [1, 5], DEL, ['status_gc'], BUSets='BUTwo'),
                mc(1, [2, 4, 3], [], ['status_gc'], Modes='ModesTwo', BUSets='BUTwo')],
-        thorough=[mc(4, MAINSEEDS, DEL, GC + ['enable_deferred'], Modes='ModesDeferred'),
-                  mc(2, MAINSEEDS, DEL, ['status_gc'])],
+        thorough=[mc(4, [2, 5, 6], DEL, GC + ['enable_deferred'], Modes='ModesDeferred'),
+                  mc(2, [2, 4, 5, 3], DEL, ['status_gc'], BUSets='BUTwo'),
+                  mc(3, [1, 5], DEL, ['status_gc'], Modes='ModesTwo', BUSets='BUTwo')],
         sim=dict(ops=DEL + DEL + GC + ADDS + MODE),
     ),
     'C05': dict(
         props=['C05'], opts='props=0 q=3',
         quick=[mc(2, [2, 4, 5, 6, 3], DEL, DEL + GC, Modes='ModesTwo', BUSets='BUTwo'),
                mc(1, MAINSEEDS + EXTRA, [], DEL + BUT, Modes='ModesDefault')],
-        thorough=[mc(3, MAINSEEDS, DEL, DEL + GC + ['add_cell_closed'], Modes='ModesTwo'),
-                  mc(2, MAINSEEDS, DEL, BUT, Modes='ModesDefault')],
+        thorough=[mc(3, [2, 5, 6, 11], DEL, DEL + GC + ['add_cell_closed'], Modes='ModesTwo'),
+                  mc(2, MAINSEEDS + EXTRA, DEL, BUT + DEL, Modes='ModesTwo', BUSets='BUTwo')],
         sim=dict(ops=DEL + GC + ADDS + BUT + MODE, num=(12, 100), depth=(20, 40)),
     ),
     'C08': dict(
         props=['C08'], opts='props=0 q=4',
         quick=[mc(2, [2, 4, 5, 6], DEL, DEL + GC + ['add_face_v', 'add_edge'], Modes='ModesTwo', BUSets='BUTwo'),
                mc(1, MAINSEEDS + EXTRA, [], SWAP + DEL, Modes='ModesDefault', BUSets='BUOn')],
-        thorough=[mc(3, MAINSEEDS + EXTRA, DEL, DEL + GC + ['add_face_v', 'add_edge'], Modes='ModesTwo', BUSets='BUTwo'),
-                  mc(2, MAINSEEDS, DEL, SWAP, Modes='ModesTwo', BUSets='BUOn')],
+        thorough=[mc(3, [2, 5, 6, 11], DEL, DEL + GC + ['add_face_v', 'add_edge'], Modes='ModesTwo', BUSets='BUTwo'),
+                  mc(2, SMALL + EXTRA, DEL, SWAP, Modes='ModesTwo', BUSets='BUOn')],
         sim=dict(ops=DEL + GC + ADDS + SWAP + MODE, num=(12, 100), depth=(20, 40)),
     ),
     'C09': dict(
@@ -98,14 +100,17 @@ CHECKS = {
         quick=[mc(2, [2, 3, 5, 7, 8], DEL + ['add_cell_closed'], DEL + GC + ['add_cell_closed'] + BUT, BUSets='BUOn'),
                mc(1, [2, 3, 5, 7, 8], [], SWAP, Modes='ModesDefault', BUSets='BUOn'),
                mc(3, [3, 7, 8], ['delete_cell', 'add_cell_closed'], ['delete_cell', 'delete_face', 'add_cell_closed'], Modes='ModesTwo', BUSets='BUOn')],
-        thorough=[mc(3, [2, 3, 5, 7, 8], DEL + GC + ['add_cell_closed'], DEL + GC + ['add_cell_closed'] + BUT + SWAP, BUSets='BUOn')],
+        thorough=[mc(3, [2, 3, 5, 7, 8], DEL + GC + ['add_cell_closed'], DEL + GC + ['add_cell_closed'] + BUT, Modes='ModesTwo', BUSets='BUOn'),
+                  mc(2, [2, 3, 5, 7, 8, 9, 10], DEL, SWAP + BUT, BUSets='BUOn'),
+                  mc(4, [3, 7, 8], ['delete_cell', 'add_cell_closed'], ['delete_cell', 'delete_face', 'add_cell_closed'] + GC, Modes='ModesTwo', BUSets='BUOn')],
         sim=dict(ops=DEL + GC + ADDS + BUT + SWAP + MODE, BUSets='BUOn'),
     ),
     'C10': dict(
         props=['C10'], opts='props=0 q=16',
         quick=[mc(2, [2, 5, 6], DEL, DEL + GC, Modes='ModesTwo', BUSets='BUOn'),
                mc(1, [3, 4, 7], [], ['add_face_v', 'add_cell_closed'] + DEL, Modes='ModesDefault', BUSets='BUOn')],
-        thorough=[mc(3, MAINSEEDS, DEL, DEL + GC + ['add_face_v', 'add_edge', 'add_cell_closed'], Modes='ModesTwo', BUSets='BUOn')],
+        thorough=[mc(3, [2, 5, 6], DEL, DEL + GC + ['add_face_v', 'add_edge', 'add_cell_closed'], Modes='ModesTwo', BUSets='BUOn'),
+                  mc(2, [3, 4, 7, 9, 10, 11], DEL, ['add_face_v', 'add_cell_closed'] + DEL, Modes='ModesDefault', BUSets='BUOn')],
         sim=dict(ops=DEL + GC + ADDS + SWAP + MODE, BUSets='BUOn', num=(12, 100), depth=(20, 40)),
     ),
     'C11': dict(
@@ -113,22 +118,24 @@ CHECKS = {
         quick=[mc(1, [1, 6], [], ['add_edge', 'add_face'], Modes='ModesDefault', BUSets='BUTwo', MaxList=3),
                mc(1, [1, 5], [], ['add_cell'], Modes='ModesDefault', BUSets='BUTwo', MaxList=4),
                mc(2, [2, 4, 6], DEL, ['add_edge', 'add_cell_closed', 'add_face_v'], Modes='ModesTwo', MaxList=3)],
-        thorough=[mc(2, [1, 4, 6], DEL, ['add_edge', 'add_face'], MaxList=3),
-                  mc(2, [1, 2, 5], ['delete_cell'], ['add_cell'], Modes='ModesDefault', MaxList=4)],
+        thorough=[mc(2, [1, 6], DEL, ['add_edge', 'add_face'], Modes='ModesTwo', BUSets='BUTwo', MaxList=3),
+                  mc(2, [1, 5, 2], ['delete_cell'], ['add_cell'], Modes='ModesDefault', BUSets='BUTwo', MaxList=4),
+                  mc(3, [2, 4, 6], DEL + GC, ['add_edge', 'add_cell_closed', 'add_face_v'], MaxList=3)],
         sim=None,
     ),
     'C12': dict(
         props=['C12', 'C01', 'C09'], opts='props=1 twin=1 q=1', variant='san',
         quick=[mc(2, SMALL, DEL + BUT, DEL + GC + BUT + ['add_edge', 'add_face_v', 'add_cell_closed', 'enable_deferred'], Modes='ModesTwo'),
                mc(1, MAINSEEDS, [], SWAP, Modes='ModesDefault')],
-        thorough=[mc(3, MAINSEEDS, DEL + GC + BUT, DEL + SWAP + BUT + GC + ['add_edge', 'add_face_v', 'add_cell_closed', 'enable_deferred'])],
+        thorough=[mc(3, [2, 5, 6], DEL + GC + BUT, DEL + BUT + GC + ['add_edge', 'add_face_v', 'add_cell_closed', 'enable_deferred']),
+                  mc(2, SMALL + EXTRA, DEL + BUT, SWAP, Modes='ModesTwo')],
         sim=dict(ops=DEL + GC + ADDS + BUT + BUT + SWAP + MODE),
     ),
     'C17': dict(
         props=['C17', 'C03', 'C01'], opts='props=2',
         quick=[mc(1, MAINSEEDS + EXTRA, [], SWAP, Modes='ModesDefault'),
                mc(2, [5, 6, 1], DEL, SWAP, Modes='ModesDeferred', BUSets='BUTwo')],
-        thorough=[mc(2, MAINSEEDS, DEL, SWAP, Modes='ModesTwo'),
+        thorough=[mc(2, MAINSEEDS + EXTRA, DEL, SWAP, Modes='ModesTwo'),
                   mc(3, [5, 6], DEL + ['add_cell_closed'], SWAP, Modes='ModesDeferred')],
         sim=dict(ops=SWAP + SWAP + DEL + GC + ADDS),
         swap_twice=True,
@@ -284,7 +291,7 @@ def run_check(prop, tier, seed, replay=None):
         cov['states'] = cov['transitions'] = max(1, agg['checked'])
         cov['samples'].append(dict(replay=replay))
     else:
-        for n, mc in enumerate(cfg[tier]):
+        for n, mc in enumerate(cfg['quick'] + (cfg['thorough'] if tier == 'thorough' else [])):
             c = dict(mc); c.setdefault('Modes', 'ModesAll'); c.setdefault('BUSets', 'BUAll'); c['Emit'] = 'tree'
             cp = os.path.join(work, 'mc%d.cfg' % n)
             vlib.write_mc_cfg(cp, c)
